@@ -603,4 +603,64 @@ theorem request_id_first (c : Ctx) (fs : List Field) (hid : IdNameOK c) (k v : B
   have : hasHdr sXRequestId fs = true := by simpa using hh
   simp [this]
 
+-- ------------------------------------------- request-side router pass --
+
+theorem routerPass_dropped (rh og rp : Option Bytes) (edits : List ReqEdit) (fs : List Field)
+    (hact : (rh.isNone && rp.isNone && edits.isEmpty) = false) (f : Field)
+    (hf : f ∈ routerPass rh og rp edits fs) (n : Bytes) (hn : n ∈ reqDropKeys rh.isSome edits)
+    (hk : fieldKeyLower f = some n) : f ∈ reqInserted rh og edits := by
+  simp only [routerPass, hact, Bool.false_eq_true, ↓reduceIte, List.mem_append, List.mem_filter] at hf
+  rcases hf with ⟨_, hkeep⟩ | hins
+  · rw [hk] at hkeep
+    simp only [Bool.not_eq_true', List.contains_eq_mem, decide_eq_false_iff_not] at hkeep
+    exact (hkeep hn).elim
+  · exact hins
+
+theorem named_key {n : Bytes} {f : Field} (h : isHdrNamed n f = true) : fieldKeyLower f = some (lower n) := by
+  cases f with
+  | cookies => simp [isHdrNamed] at h
+  | hdr k v =>
+    simp only [isHdrNamed, eqNoCase, beq_iff_eq] at h
+    simp [fieldKeyLower, h]
+
+theorem request_edits_all_copies (rh og rp : Option Bytes) (edits : List ReqEdit) (fs : List Field) :
+    (∀ e ∈ edits, e.val = [] → ∀ f ∈ routerPass rh og rp edits fs, isHdrNamed e.key f = true →
+        f ∈ reqInserted rh og edits) ∧
+    (rh.isSome = true → ∀ f ∈ routerPass rh og rp edits fs,
+        (isHdrNamed sHost f = true ∨ isHdrNamed sXFHost f = true) → f ∈ reqInserted rh og edits) ∧
+    (∀ f ∈ fs, (∀ n ∈ reqDropKeys rh.isSome edits, fieldKeyLower f ≠ some n) → f ∈ routerPass rh og rp edits fs) := by
+  refine ⟨?_, ?_, ?_⟩
+  · intro e he hv f hf hnamed
+    have hact : (rh.isNone && rp.isNone && edits.isEmpty) = false := by
+      cases edits with
+      | nil => simp at he
+      | cons a t => simp
+    refine routerPass_dropped rh og rp edits fs hact f hf (lower e.key) ?_ (named_key hnamed)
+    simp only [reqDropKeys, List.mem_append, List.mem_map, List.mem_filter]
+    exact .inl (.inl ⟨e, ⟨he, by simp [hv]⟩, rfl⟩)
+  · intro hrh f hf hnamed
+    have hact : (rh.isNone && rp.isNone && edits.isEmpty) = false := by
+      cases rh with
+      | none => simp at hrh
+      | some x => simp
+    rcases hnamed with hnamed | hnamed
+    · refine routerPass_dropped rh og rp edits fs hact f hf sHost ?_ (by
+        have := named_key hnamed; rwa [show lower sHost = sHost by decide] at this)
+      simp [reqDropKeys, hrh]
+    · refine routerPass_dropped rh og rp edits fs hact f hf sXFHost ?_ (by
+        have := named_key hnamed; rwa [show lower sXFHost = sXFHost by decide] at this)
+      simp [reqDropKeys, hrh]
+  · intro f hf hno
+    unfold routerPass
+    split
+    · exact hf
+    · simp only [List.mem_append, List.mem_filter]
+      refine .inl ⟨hf, ?_⟩
+      cases hk : fieldKeyLower f with
+      | none => rfl
+      | some k =>
+        simp only [Bool.not_eq_true', List.contains_eq_mem, decide_eq_false_iff_not]
+        intro hmem
+        exact hno k hmem hk
+
 end Sozu.Headers
